@@ -104,32 +104,50 @@ HTMLS = [
 ]
 PAY = [b'pay  load <x> 1.0', b'second   payload { }']
 
+HTMLS_ONLY = (b'<!doctype html><p>before <svg xmlns="http://www.w3.org/2000/svg" width="10.0" height="10.0"><style> .a { fill: #ff0000 } </style>'
+              b'<path class="a" d="M 0 0 L 10.0 10.0 z"/></svg> after</p>')
 SHAPE_DOCS = {
-    'css': [('text/css', d) for d in CSS] + [('text/css; charset=utf-8', CSS[0])],
+    # shape of spec/Conc.tla -> documents whose nested registry calls are exactly that shape (checked on every run by the
+    # instrumented "shape" scenario: DRIFT:shape otherwise)
+    'css': [('text/css', CSS[1]), ('text/css', CSS[2]), ('text/css; charset=utf-8', CSS[1])],
+    'cssD': [('text/css', CSS[0]), ('text/css; charset=utf-8', CSS[0])],
     'cssi': [('text/css; inline=1', d) for d in CSSI],
-    'js': [('application/javascript', d) for d in JS] + [('text/javascript', JS[0]), ('text/x-ecmascript', JS[1])]
-          + [('application/javascript; inline=1', d) for d in JSI],
-    'json': [('application/json', d) for d in JSON] + [('application/ld+json', JSON[1])],
-    'xml': [('text/xml', d) for d in XML] + [('application/rss+xml', XML[1]), ('text/xml; charset=utf-8', XML[0])],
+    'js': [('application/javascript', d) for d in JS] + [('text/javascript', JS[0]), ('text/x-ecmascript', JS[1])],
+    'jsi': [('application/javascript; inline=1', d) for d in JSI],
+    # x-cmdre/...+json and x-gatere/...+xml match two registered patterns: the first registered one must serve them
+    'json': [('application/json', d) for d in JSON] + [('application/ld+json', JSON[1]), ('x-cmdre/feed+json', JSON[0])],
+    'xml': [('text/xml', d) for d in XML] + [('application/rss+xml', XML[1]), ('text/xml; charset=utf-8', XML[0]),
+                                              ('x-gatere/doc+xml', XML[1])],
+    'upper': [('a+xml/x-upper', XML[0]), ('text/x-upper', PAY[0])],
     'svg0': [('image/svg+xml', SVG0)],
-    'svg1': [('image/svg+xml', SVG1), ('image/svg+xml', SVG1B)],
+    'svg1': [('image/svg+xml', SVG1B)],
+    'svg2': [('image/svg+xml', SVG1)],
     'html0': [('text/html', d) for d in HTML0],
-    'htmlC': [('text/html', d) for d in HTMLC] + [('text/html; charset=utf-8', HTMLC[0])],
-    'htmlS': [('text/html', d) for d in HTMLS],
+    'htmlC': [('text/html', HTMLC[0]), ('text/html; charset=utf-8', HTMLC[0])],
+    'htmlD': [('text/html', HTMLC[1])],
+    'htmlS': [('text/html', HTMLS_ONLY)],
+    'htmlM': [('text/html', HTMLS[0])],
+    'htmlS3': [('text/html', HTMLS[1])],
     'cmd': [('x-cmd/cat', PAY[0]), ('x-cmdre/anything', PAY[1])],
     'none': [('text/plain', PAY[0]), ('image/png', PAY[1])],
     'matchL': [('text/html', HTML0[0]), ('text/css; inline=1', CSSI[0]), ('image/svg+xml', SVG1)],
     'matchP': [('text/xml; charset=utf-8', XML[0]), ('application/ld+json', JSON[0]), ('text/x-ecmascript', JS[0]),
-               ('a/x-upper', PAY[0]), ('x-cmdre/q', PAY[0]), ('text/plain', PAY[0])],
+               ('a/x-upper', PAY[0]), ('x-cmdre/q', PAY[0]), ('text/plain', PAY[0]),
+               ('x-cmdre/feed+json; inline=1', JSON[1]), ('x-gatere/doc+xml', XML[0]), ('a+json/x-upper', JSON[0])],
 }
 GATE_DOCS = {
     'htmlG': [('text/html', b'<!doctype html><p> a <script type="application/x-gate;id=%d">pay  load</script> b</p>'),
-              ('text/html', b'<div><style type="application/x-gate; id=%d"> st yle </style></div>')],
+              ('text/html', b'<div><style type="application/x-gate; id=%d"> st yle </style></div>'),
+              ('text/html', b'<p>i<img src="data:application/x-gate;id=%d,in%%20an%%20attribute"></p>')],
     'htmlGre': [('text/html', b'<ul><li>x<script type="x-gatere/sub;id=%d">var a  =  1</script></ul>')],
+    'cssG': [('text/css', b'a { background: url("data:application/x-gate;id=%d,pay%%20load") ; color: #ff0000 }')],
+    'svgG': [('image/svg+xml', b'<svg xmlns="http://www.w3.org/2000/svg"><style>a { fill: url("data:application/x-gate;id=%d,zz") }</style>'
+                               b'<path d="M 0 0 L 1.0 1.0 z"/></svg>')],
+    'htmlCG': [('text/html', b'<p style="background: url(\'data:x-gatere/s;id=%d,q\'); margin: 0px"> t </p>')],
     'gate': [('application/x-gate; id=%d', PAY[0])],
     'gatere': [('x-gatere/q; id=%d', PAY[1]), ('x-gatere/other;id=%d', PAY[0])],
 }
-PAIR_SHAPES = ['html0', 'htmlC', 'htmlS', 'css', 'cssi', 'js', 'json', 'xml', 'svg0', 'svg1', 'cmd', 'none']
+PAIR_SHAPES = ['html0', 'htmlC', 'htmlD', 'htmlS', 'htmlS3', 'css', 'cssD', 'cssi', 'js', 'json', 'xml', 'svg0', 'svg2', 'cmd', 'none']
 MAXGATE = 40
 
 
@@ -275,7 +293,7 @@ def pair_scenarios(pool, rnd, quick, optsets, sid0):
                 elif v == 'conc':
                     progs, script = [[ca], [cb]], [S(1, 1), S(2, 1), D(2, 1), D(1, 1)]
                 else:
-                    cg = pool.call(rnd, rnd.choice(['htmlG', 'htmlGre', 'gate', 'gatere']), gate_id(3, 1))
+                    cg = pool.call(rnd, rnd.choice(sorted(GATE_DOCS)), gate_id(3, 1))
                     progs = [[ca], [cb], [cg]]
                     script = [S(3, 1), P(3, 1), S(1, 1), S(2, 1), D(1, 1), D(2, 1), R(3, 1), D(3, 1)]
                 out.append(dict(kind='sched', id='%s%d' % (sid0, n), optset=o, gomaxprocs=rnd.choice([1, 4, 16]),
@@ -317,7 +335,7 @@ def stress_scenarios(pool, rnd, calls, quick, optsets):
                     m1 = pool.call(rnd, rnd.choice(['matchP', 'matchL']))
                     progs.append([m1] + mid + [dict(m1)])
                 parked = []
-                for i, sh in enumerate(rnd.sample(['gate', 'gatere', 'htmlG', 'htmlGre'], 3 if quick else 4)):
+                for i, sh in enumerate(rnd.sample(sorted(GATE_DOCS), 4 if quick else 6)):
                     c = pool.call(rnd, sh, 30 + i)
                     parked.append(c)
                 out.append(dict(kind='stress', id='x%d' % n, optset=rnd.choice(optsets), gomaxprocs=P, progs=progs, parked=parked))
@@ -400,7 +418,7 @@ def for_tlc(l):
     """what TLC needs of a line: free text (outputs, struct renderings, error texts, race reports) is only ever
     compared for equality, so it travels as a digest - TLA+ strings are atomic anyway"""
     return dict(ev=l['ev'], sc=l['sc'], g=l['g'], k=l['k'], sh=l['sh'], key=l['key'], h=l['h'], err=_h(l['err']),
-                races=l['races'], o1=_h(l['o1']), o2=_h(l['o2']), note='')
+                races=l['races'], o1=_h(l['o1']), o2=_h(l['o2']), note='', tree=l.get('tree') or [])
 
 
 _tlc_lock = threading.Lock()
@@ -474,17 +492,24 @@ def run_tlc(ctx, module, cfg, workers=1, heap='3g', timeout=1800, env=None, simu
 
 
 def tv(ctx, base_lines, groups):
-    """groups: list of lists of lines; each group is validated by one TLC run together with all base lines.
-    returns (accepted_lines, {group_index: [(line_in_group, why)]})"""
+    """groups: list of lists of lines; each group is validated by one TLC run together with the reference lines of
+    the keys it mentions (group 0: with ALL reference lines, so that every repetition of a reference call - same
+    process, second process - is compared exactly once).
+    returns (accepted_lines, {group_index: [(line_in_group, why)]}; group index -1 = base_lines)"""
     def one(gi):
-        lines = [for_tlc(l) for l in base_lines + groups[gi]]
+        if gi == 0:
+            bidx = list(range(len(base_lines)))
+        else:
+            keys = set(l['key'] for l in groups[gi])
+            bidx = [i for i, b in enumerate(base_lines) if b['ev'] != 'base' or b['key'] in keys]
+        lines = [for_tlc(base_lines[i]) for i in bidx] + [for_tlc(l) for l in groups[gi]]
         acc, rej = tlc_trace_one(ctx, lines, 'g%d' % gi)
-        return gi, acc, rej
+        return gi, bidx, rej
     rejects, accepted = {}, 0
     with ThreadPoolExecutor(max_workers=max(1, min(vlib.JOBS, len(groups)))) as ex:
-        for gi, acc, rej in ex.map(one, range(len(groups))):
-            nb = len(base_lines)
-            brej = [(i, w) for i, w in rej if i < nb]
+        for gi, bidx, rej in ex.map(one, range(len(groups))):
+            nb = len(bidx)
+            brej = [(bidx[i], w) for i, w in rej if i < nb]
             grej = [(i - nb, w) for i, w in rej if i >= nb]
             if gi == 0 and brej:
                 rejects.setdefault(-1, []).extend(brej)
@@ -492,7 +517,7 @@ def tv(ctx, base_lines, groups):
                 rejects[gi] = grej
             accepted += len(groups[gi]) - len(set(i for i, _ in grej))
             if gi == 0:
-                accepted += nb - len(set(i for i, _ in brej))
+                accepted += len(base_lines) - len(set(i for i, _ in brej))
     return accepted, rejects
 
 
@@ -591,7 +616,7 @@ NEG = [('ConcNeg_reg_noblocking', 'NoBlocking'), ('ConcNeg_reg_deadlock', 'deadl
 
 def model_check(ctx):
     quick = ctx.quick()
-    pos = ['Conc_mc2x2q', 'Conc_mc3x1q', 'Conc_mc2x1a'] if quick else \
+    pos = ['Conc_mc2x2q', 'Conc_mc3x1q', 'Conc_mc2x1aq'] if quick else \
           ['Conc_mc2x2', 'Conc_mc3x1', 'Conc_mc2x1a', 'Conc_mc2x3', 'Conc_mc3x2', 'Conc_mc4x1']
     info = {}
     lock = threading.Lock()
@@ -602,7 +627,7 @@ def model_check(ctx):
             raise vlib.Infra('design-level model checking of Conc/%s did not pass:\n%s' % (cfg, r['out'][-3000:]))
         with lock:
             ctx.add_mc(r)
-            info[cfg] = dict(states=r['distinct'], transitions=r['generated'], depth=r['depth'])
+            info[cfg] = dict(states=r['distinct'], transitions=r['generated'], depth=r['depth'], wall_s=round(r['wall'], 1))
 
     def run_neg(item):
         cfg, want = item
@@ -678,7 +703,7 @@ def _run(ctx, exe, quick, rnd, mc_info):
     optsets = [0, 1, 2]
 
     # ---- GEN: histories of the design model
-    nsim = (100, 100, 50) if quick else (1200, 1200, 500)
+    nsim = (100, 100, 50) if quick else (2000, 2000, 800)
     with ThreadPoolExecutor(max_workers=3) as ex:
         f1 = ex.submit(histories, ctx, 'Conc_gen', nsim[0], ctx.seed)
         f2 = ex.submit(histories, ctx, 'Conc_genlazy', nsim[1], ctx.seed + 1000)
@@ -700,16 +725,21 @@ def _run(ctx, exe, quick, rnd, mc_info):
         rnd.shuffle(order)
         seqs.append(dict(kind='seq', id='q%d' % o, optset=o, gomaxprocs=4, calls=order))
     stress = stress_scenarios(pool, rnd, calls, quick, optsets)
+    shape_calls = [dict(e='Bytes', mt=mt, doc=d, gate=0, sh=sh) for sh, lst in sorted(pool.by_shape.items())
+                   if not sh.startswith('match') for mt, d in lst]
+    shape_calls += [dict(e='Bytes', mt=mt, doc=d, gate=0, sh=sh) for (sh, gid), lst in sorted(pool.gate.items()) if gid in (1, 7)
+                    for mt, d in lst]
+    shapes = [dict(kind='shape', id='h%d' % o, optset=o, gomaxprocs=4, calls=shape_calls) for o in optsets]
     everything = scheds + pairs + seqs + stress
     bases = base_scenarios(everything)
-    by_id = {sc['id']: sc for sc in everything + bases}
+    by_id = {sc['id']: sc for sc in everything + bases + shapes}
 
     # ---- RUN: several driver processes side by side (each with its own race log and TMPDIR)
     nproc = max(2, min(vlib.JOBS, 8))
     sched_all = scheds + pairs
     chunks = [sched_all[i::max(1, nproc - 3)] for i in range(max(1, nproc - 3))]
     jobs = [('base', bases, None), ('proc2', [dict(b, id='z' + b['id'], gomaxprocs=0) for b in bases], 3),
-            ('seq', seqs, None), ('stress', stress, None)] + [('sched%d' % i, c, None) for i, c in enumerate(chunks) if c]
+            ('seq', seqs + shapes, None), ('stress', stress, None)] + [('sched%d' % i, c, None) for i, c in enumerate(chunks) if c]
     for sc in jobs[1][1]:
         by_id[sc['id']] = sc
     with ThreadPoolExecutor(max_workers=nproc) as ex:
@@ -749,6 +779,30 @@ def _run(ctx, exe, quick, rnd, mc_info):
             else:
                 l = groups[gi][i]
             bad.setdefault(l['sc'], []).append((l, why))
+    # a document whose nested calls differ from the shape the model assumes: DRIFT information, never a verdict
+    shape_drift = []
+    for sid in list(bad):
+        keep = []
+        for l, w in bad[sid]:
+            if w == 'DRIFT:shape':
+                shape_drift.append(dict(shape=l['sh'], call=l['key'], observed_tree=l.get('tree')))
+            else:
+                keep.append((l, w))
+        if keep:
+            bad[sid] = keep
+        else:
+            del bad[sid]
+    ctx.coverage['drift'] = shape_drift[:20]
+    for dsh in shape_drift[:5]:
+        vlib.log('C13 DRIFT (information): %s' % json.dumps(dsh))
+    # when a reference scenario itself was rejected (e.g. the process died in a sequential call) later calls have
+    # no reference: those lines cannot be judged and are not counted either way
+    base_ids = set(sc['id'] for sc in bases) | set('z' + sc['id'] for sc in bases)
+    if any(sid in base_ids for sid in bad):
+        for sid in list(bad):
+            bad[sid] = [(l, w) for l, w in bad[sid] if w != 'DRIFT:noref']
+            if not bad[sid]:
+                del bad[sid]
     drift = [(sid, l, w) for sid, lw in bad.items() for l, w in lw if w.startswith('DRIFT')]
     if drift:
         sid, l, w = drift[0]
@@ -785,7 +839,8 @@ def _run(ctx, exe, quick, rnd, mc_info):
     _t(ctx, 'triage finished')
     ctx.coverage['rejected_scenarios'] = len(bad)
     ctx.coverage['rejected_scenarios_reproduced'] = reproduced
-    if unreproduced:
+    ctx.coverage['rejected_scenarios_not_reproduced'] = len(unreproduced)
+    if unreproduced and not reproduced:
         raise vlib.Infra('rejections that did not reproduce in isolation (not a verdict): %s' % unreproduced[:5])
 
     # ---- evidence
@@ -796,7 +851,9 @@ def _run(ctx, exe, quick, rnd, mc_info):
     for sc in stress:
         nontrivial.add(json.dumps(['stress', len(sc['progs']), sc['gomaxprocs'], sc['id']]))
     ncalls = sum(1 for l in base_lines + other + pin_lines if l['ev'] in ('base', 'ret', 'done'))
-    whole = len(scen_lines) - len(bad) + (len(bases) * 2)
+    skipped = sum(1 for l in other if l['ev'] == 'end' and l['note'] == 'skipped')
+    ctx.coverage['scenarios_skipped_after_a_blocked_call'] = skipped
+    whole = len(scen_lines) - len(bad) - skipped + (len(bases) * 2)
     samples = []
     for sc in (scheds[:1] + [s for s in pairs if s.get('pair', [0, 0, ''])[2] == 'parked'][:1]):
         samples.append(dict(kind='scripted history', optset=sc['optset'], gomaxprocs=sc['gomaxprocs'],
@@ -823,6 +880,7 @@ def _run(ctx, exe, quick, rnd, mc_info):
         samples=samples,
         scripted_histories=len(scheds), pair_histories=len(pairs), stress_runs=len(stress),
         reference_calls=sum(len(b['calls']) for b in bases), repo_test_documents=nrepo,
+        shape_checks=sum(len(sc['calls']) for sc in shapes),
         documents=len(pool.docs), pinned_known_scenarios=len(pinned),
     ))
     ctx.assumptions += [
